@@ -4,7 +4,7 @@ import re
 
 IDENT = re.compile(r"^[A-Za-z_][A-Za-z_0-9]*$")
 WORDS = ["Foo", "Bar", "alpha", "x", "data_v2", "Low", "Medium", "High", "is", "a", "string", "value", "T1", "_tmp", "Elev", "km2"]
-NONASCII = ["é", "ü", "Ω", "日本", "ß", "—", "ñ"]
+NONASCII = ["é", "ü", "Ω", "日本", "ß", "—", "ñ", "e\u0301", "\u212b", "\u2126", "\ufb01"]      # the last four are not in Unicode composed (NFC / NFKC) form
 
 
 # ---------------------------------------------------------------- AST generation
